@@ -44,3 +44,65 @@ Definition x_cfg_resolve : flags -> env -> cfg_result := resolve x_cfg_params.
 Definition x_cfg_from_env : env -> config := from_env x_cfg_params.
 Definition x_parse_bool : string -> bool := parse_bool cfg_bool_extra.
 Definition x_should_skip : config -> string -> bool := should_skip.
+
+(* --- the per-package analysis (C01-C04, C07-C10, C12-C15, C17) --- *)
+From GG Require Import Model.GoAst Model.RegexSyntax Model.Regex Model.Annot Model.Annots Model.Analyze.
+
+Definition x_parse_implements := parse_implements re_implements.
+Definition x_parse_constructor := parse_constructor re_constructor.
+Definition x_parse_immutable := parse_immutable re_immutable.
+Definition x_parse_testonly := parse_testonly re_testonly.
+Definition x_parse_mutable := parse_mutable re_mutable.
+Definition x_parse_packageonly := parse_packageonly re_packageonly.
+Definition x_parse_ignore := parse_ignore re_ignore.
+Definition x_re_find (which : nat) (s : string) : option caps :=
+  re_find (nth which [re_implements; re_constructor; re_immutable; re_testonly; re_mutable; re_packageonly; re_ignore] RUnsupported) s.
+
+Definition x_read_all : config -> package -> annots :=
+  read_all re_implements re_constructor re_immutable re_testonly re_mutable re_packageonly kw_annotations.
+
+Definition x_ignore_ops : config -> package -> option (list op) := ignore_ops re_ignore kw_ignore.
+
+Inductive aresult := AOk (own : annots) (ds : list diag) | APanic (site : string).
+
+Definition x_suppressed (ops : list op) : string -> Z -> bool :=
+  let s := x_is_run ops in
+  fun c p => match x_is_contains s c p with Ok b => b | Panic => false end.
+
+(* the facts an action sees: its own annotations, then those of its direct imports, in import order *)
+Definition x_facts (p : package) (own : annots) (all : list (string * annots)) : facts :=
+  (p_path p, own) ::
+  flat_map (fun ip => match find (fun pa => String.eqb (fst pa) ip) all with Some pa => [pa] | None => [] end) (p_imports p).
+
+Definition x_analyze (cfg : config) (p : package) (all : list (string * annots)) : aresult :=
+  let own := x_read_all cfg p in
+  match x_ignore_ops cfg p with
+  | None => APanic "token.File.LineStart: invalid line number"
+  | Some ops =>
+      let fs := x_facts p own all in
+      let sup := x_suppressed ops in
+      let files := kept_files cfg p in
+      AOk own
+        (report_filter sup (imm_candidates fs (p_path p) files) ++
+         report_filter sup (ctor_candidates fs (p_path p) files) ++
+         tonl_diags fs (p_path p) sup files ++
+         pkgo_diags fs (p_path p) (p_name p) sup files)
+  end.
+
+(* the four AST checkers of a package, as run by x_analyze *)
+Definition x_imm (cfg : config) (p : package) (fs : facts) (sup : string -> Z -> bool) : list diag :=
+  report_filter sup (imm_candidates fs (p_path p) (kept_files cfg p)).
+Definition x_ctor (cfg : config) (p : package) (fs : facts) (sup : string -> Z -> bool) : list diag :=
+  report_filter sup (ctor_candidates fs (p_path p) (kept_files cfg p)).
+Definition x_tonl (cfg : config) (p : package) (fs : facts) (sup : string -> Z -> bool) : list diag :=
+  tonl_diags fs (p_path p) sup (kept_files cfg p).
+Definition x_pkgo (cfg : config) (p : package) (fs : facts) (sup : string -> Z -> bool) : list diag :=
+  pkgo_diags fs (p_path p) (p_name p) sup (kept_files cfg p).
+
+(* well-formedness of the serialised trees that the theorems assume: checked on every dumped package *)
+Definition x_wf_package (p : package) : bool :=
+  forallb (fun f => forallb (fun d => forallb
+     (fix nf (n : node) : bool :=
+        let 'Node k _ _ _ cs := n in
+        negb (kind_eqb k KFuncDecl) && (fix go (l : list node) : bool := match l with [] => true | c :: r => nf c && go r end) cs)
+     (n_children d)) (f_decls f)) (p_files p).
